@@ -1,4 +1,4 @@
-//go:build verif
+//go:build verif && c15
 
 // C15 harness: an assembly file (even an empty one) lets the package declare functions without
 // a body, which zz_verif_c15_test.go needs for its go:linkname references to the unexported
